@@ -5,7 +5,10 @@ descriptions used for the forgiving-factor size model.
 A *spec* is
   {"input": [dims], "layers": [layer dicts], "limit": [[key, entry], ...]
    (ordered: dictionary order matters for regular-expression keys),
-   "layer_indexes": null | [int], "tune_filters": "none"|"layer"|"block",
+   "layer_indexes": null | [int] (may be empty = nothing selected),
+   "li_form": "list"|"tuple"|"range"|"set"|"frozenset" (container handed to the
+   hyper-model; absent = "list"), "route": "hypermodel"|"autoqkeras" (who
+   constructs the hyper-model; absent = "hypermodel"), "tune_filters": "none"|"layer"|"block",
    "tune_exc": regex, "activation_bits": int,
    "qconfig": "default" | {section: [[string, bits], ...]}}
 and a *trial case* is {"kind": "trial", "spec": spec, "decisions": [int]}: the
@@ -67,6 +70,18 @@ class RecordingHP(object):
 
   def effective(self):
     return [k for _, v, k in self.rec if len(v) > 1]
+
+
+class StubTuner(object):
+  """custom_tuner for AutoQKeras(...): stores what the wrapper hands over and
+  never builds, searches or writes anything."""
+
+  def __init__(self, hypermodel, **kwargs):
+    self.hypermodel = hypermodel
+    self.kwargs = kwargs
+
+  def search_space_summary(self):
+    pass
 
 
 # ---------------------------------------------------------------------------
@@ -477,6 +492,81 @@ def limit_st(draw, layers, qc_pairs, force_last_only=False):
   return pairs
 
 
+LI_FORMS = ("list", "tuple", "range", "set", "frozenset")
+
+
+def layer_indexes_value(spec):
+  """The object handed to the hyper-model as `layer_indexes`: None or a
+  container of layer ids in the spec's container form (the documentation only
+  says 'layers whose ids are in layer_indexes')."""
+  li = spec["layer_indexes"]
+  form = spec.get("li_form", "list")
+  if li is None:
+    return None
+  li = [int(i) for i in li]
+  if form == "list":
+    return list(li)
+  if form == "tuple":
+    return tuple(li)
+  if form == "set":
+    return set(li)
+  if form == "frozenset":
+    return frozenset(li)
+  if form == "range":
+    if not li:
+      return range(0)
+    if len(li) == 1:
+      return range(li[0], li[0] + 1)
+    step = li[1] - li[0]
+    r = range(li[0], li[-1] + (1 if step > 0 else -1), step)
+    if list(r) != li:
+      raise ValueError("li_form 'range' needs an arithmetic progression: %r" % (li,))
+    return r
+  raise ValueError("unknown li_form %r" % (form,))
+
+
+@st.composite
+def layer_indexes_st(draw, n):
+  """(layer_indexes, container form) for a model of n layers (InputLayer = 0).
+  Every selection size 0..n is reachable - nothing selected, a single layer
+  (possibly only the InputLayer), proper subsets, everything - in every
+  container form; lists/tuples may be unsorted."""
+  mode = draw(st.integers(0, 9))
+  if mode <= 3:
+    return None, "list"
+  if mode <= 5:
+    # notebook style: everything but the input and the last layer
+    form = draw(st.sampled_from(LI_FORMS))
+    return list(range(1, n - 1)), form
+  form = draw(st.sampled_from(LI_FORMS))
+  size = draw(st.sampled_from(["empty", "empty", "one", "all", "some", "some",
+                               "some", "some"]))
+  if form == "range":
+    if size == "empty":
+      return [], form                      # handed over as range(0)
+    if size == "one":
+      a = draw(st.integers(0, n - 1))
+      return [a], form
+    if size == "all":
+      return list(range(n)), form
+    a = draw(st.integers(0, n - 2))
+    step = draw(st.sampled_from([1, 1, 2]))
+    b = draw(st.integers(min(a + step + 1, n), n))
+    return list(range(a, b, step)), form
+  if size == "empty":
+    return [], form
+  if size == "all":
+    k = n
+  elif size == "one":
+    k = 1
+  else:
+    k = draw(st.integers(1, n - 1))
+  idx = draw(st.lists(st.integers(0, n - 1), min_size=k, max_size=k, unique=True))
+  if form in ("list", "tuple") and draw(st.booleans()):
+    return list(idx), form                 # drawn order (unsorted)
+  return sorted(idx), form
+
+
 @st.composite
 def spec_st(draw):
   fam = draw(st.sampled_from(["vec", "vec", "vec", "img", "img", "img", "seq"]))
@@ -491,15 +581,7 @@ def spec_st(draw):
   last_only = tune != "none" and draw(st.booleans())
   spec["limit"] = draw(limit_st(layers, qc_pairs, force_last_only=last_only))
   n = len(layers) + 1                  # + InputLayer
-  li = draw(st.integers(0, 4))
-  if li == 0:
-    spec["layer_indexes"] = list(range(1, n - 1))      # notebook style
-  elif li == 1:
-    k = draw(st.integers(max(1, n // 2), n - 1))
-    spec["layer_indexes"] = sorted(draw(st.lists(
-        st.integers(0, n - 1), min_size=k, max_size=k, unique=True)))
-  else:
-    spec["layer_indexes"] = None
+  spec["layer_indexes"], spec["li_form"] = draw(layer_indexes_st(n))
   spec["tune_filters"] = tune
   names = [l["name"] for l in layers]
   if last_only:
@@ -508,6 +590,9 @@ def spec_st(draw):
     spec["tune_exc"] = draw(st.sampled_from(
         ["^$", "^$", "^dense$", "^dense", "^%s$" % draw(st.sampled_from(names))]))
   spec["activation_bits"] = draw(st.sampled_from([2, 4, 4, 6]))
+  # usage route: hyper-model built directly, or by the AutoQKeras wrapper
+  spec["route"] = draw(st.sampled_from(
+      ["hypermodel", "hypermodel", "hypermodel", "autoqkeras"]))
   return spec
 
 
@@ -623,6 +708,25 @@ def dfs_specs(tier):
       "limit": [["Dense", [1, 2, 4]], ["Activation", [4]]],
       "layer_indexes": None, "tune_filters": "none", "tune_exc": "^$",
       "activation_bits": 4, "qconfig": _SMALL_QC, "arities": []})
+  # I: boundary values of the layer selection on one model, one container form
+  # each: nothing selected (no choice point, one leaf: the trial is the
+  # reference), only the InputLayer, only the last layer, every layer
+  # (the weight choice points are registered for every layer under the limits
+  # before the selection is looked at, so each variant still has >= 4 leaves)
+  for li, form, route, ar in (
+      ([], "tuple", "hypermodel", [2, 2]), ([], "range", "autoqkeras", [2, 2]),
+      ([0], "range", "hypermodel", [2, 2]), ([3], "frozenset", "hypermodel", [2, 2]),
+      ([0, 1, 2, 3], "set", "autoqkeras", [2, 2, 2])):
+    specs.append({
+        "input": [4],
+        "layers": [
+            {"k": "Dense", "name": "fc_0", "units": 3, "act": None, "use_bias": True},
+            {"k": "Activation", "name": "relu_0", "act": "relu"},
+            {"k": "Dense", "name": "fc_1", "units": 2, "act": None, "use_bias": True}],
+        "limit": [["Dense", [2, 4, 4]], ["Activation", [4]]],
+        "layer_indexes": li, "li_form": form, "route": route,
+        "tune_filters": "none", "tune_exc": "^$",
+        "activation_bits": 4, "qconfig": _SMALL_QC, "arities": ar})
   if tier != "quick":
     # E: default configuration, conv stack with a group and list limits
     specs.append({
